@@ -121,6 +121,10 @@ func (xp xpathImpl) resolveOperator(oper *xpath.Operator, ident string, s *Selec
 	default:
 		ac, aok := a.(val.Comparable)
 		bc, bok := b.(val.Comparable)
+		if a.Format() != b.Format() {
+			// e.g. members of a union, there is no order between different types
+			return false, nil
+		}
 		if !aok || !bok {
 			return false, fmt.Errorf("%w. '%s' has no order to compare with %s in xpath", fc.BadRequestError, ident, oper.Oper)
 		}
